@@ -77,7 +77,8 @@ class Ctx:
             self.traces_validated += 1
             if not v.accepted:
                 self.violation(sig(t, v), what(t, v),
-                               {"kind": "rejected-trace", "module": module, "trace": t,
+                               {"kind": "rejected-trace", "module": module, "cfg_text": cfg_text,
+                                "wrapper": list(trace_mod.WRAPPER) if trace_mod.WRAPPER else None, "trace": t,
                                 "step": v.step, "clauses": v.clauses, "event": v.event,
                                 "invariant": v.invariant})
         return vs
